@@ -17,7 +17,9 @@ ChainConfigException::ChainConfigException() throw() { *this << "Chain configure
 ChainConfigException::~ChainConfigException() throw() {}
 
 Thread::~Thread() {
+  KPU_KENLM_VERIF_POINT(::util::verif::kThreadBeforeJoin, this);
   thread_.join();
+  KPU_KENLM_VERIF_POINT(::util::verif::kThreadAfterJoin, this);
 }
 
 void Thread::UnhandledException(const std::exception &e) {
@@ -54,6 +56,7 @@ ChainPosition Chain::Add() {
 
 Chain &Chain::operator>>(const WriteAndRecycle &writer) {
   threads_.push_back(new Thread(Complete(), writer));
+  KPU_KENLM_VERIF_POINT(::util::verif::kThreadSpawned, &threads_.back());
   return *this;
 }
 
